@@ -64,6 +64,7 @@ ThDirReadings == HsThDirReadings(doc)
 \* T-StateDefs: the library's definition TEXTS of the state pseudo-classes (StateDefsGen, from the tree under test), parsed and compiled by the
 \* specification's front end and evaluated by the matcher of Ir.tla, designate exactly what HtmlState.tla says
 ST == INSTANCE IrState
-ASSUME ST!StateListsReady       \* deep-normalise the shared constants before the workers start
-ThStateDefs == ST!StateDefsHold(doc, [nsmap |-> <<>>, scope |-> RootOf(doc)])
+SD == ST!FlaggedLists          \* constant of THIS module: evaluated once at start-up (see IrState)
+ASSUME DOMAIN SD # {}
+ThStateDefs == ST!StateDefsHoldL(SD, doc, [nsmap |-> <<>>, scope |-> RootOf(doc)])
 =============================================================================
